@@ -178,14 +178,14 @@ def fieldOk (c : Ctx) (R : Name → List Selection → J → Bool) (obj : Name) 
       | none => false
 
 /-- ExecuteSelectionSet, one level: the response map has exactly one entry per response key of the grouped field
-    set, each a completed value -/
+    set, each a completed value, and no other entry.  Records are read the way `Ts/Sem.lean` reads them (`J.get`:
+    a missing key is the value `absent`, which no field completes to — unless a scalar is configured with a
+    TypeScript type that contains `undefined`). -/
 def setOkB (c : Ctx) (R : Name → List Selection → J → Bool) (obj : Name) (g : Groups) (v : J) : Bool :=
   match v with
   | .obj kvs =>
-    kvs.length == g.length && g.all fun (key, fs) =>
-      match kvs.find? (·.1 == key) with
-      | some (_, x) => !x.isAbsent && fieldOk c R obj fs x
-      | none => false
+    (g.all fun (key, fs) => fieldOk c R obj fs (J.get kvs key))
+      && kvs.all fun kv => kv.2.isAbsent || g.any (·.1 == kv.1)
   | _ => false
 
 /-- one level of ExecuteSelectionSet with nested objects satisfying `R` -/
@@ -348,7 +348,7 @@ def foreignAtom : J := .atom "__foreign__"
 /-- replacements tried at every position: (kind, value) -/
 def replacements (lits : List String) (v : J) : List (String × J) :=
   ([("null", J.null), ("foreign-atom", foreignAtom), ("foreign-string", .str "__foreign__"), ("number", .num),
-    ("boolean", .bool true), ("empty-list", .arr []), ("singleton-list", .arr [v]), ("empty-record", .obj [])]
+    ("empty-list", .arr []), ("singleton-list", .arr [v]), ("empty-record", .obj [])]
     ++ lits.map fun l => ("literal", J.str l)).filter fun r => !(r.2 == v)
 
 mutual
@@ -358,9 +358,10 @@ def mutate (lits : List String) (keys : List String) : J → List (String × J)
     replacements lits (.arr xs) ++ (mutateList lits keys xs).map (fun (k, l) => (k, J.arr l))
       ++ [("list-extended", .arr (xs ++ [foreignAtom]))]
   | .obj kvs =>
-    replacements lits (.obj kvs) ++ (mutateFields lits keys kvs).map (fun (k, l) => (k, J.obj l))
+    [("extra-key", .obj (kvs ++ [("__extra__", .null)]))]
       ++ (keys.filter fun k => !kvs.any (·.1 == k)).map (fun k => ("extra-key", J.obj (kvs ++ [(k, .str "__foreign__")])))
-      ++ [("extra-key", .obj (kvs ++ [("__extra__", .null)]))]
+      ++ (mutateFields lits keys kvs).map (fun (k, l) => (k, J.obj l))
+      ++ replacements lits (.obj kvs)
   | v => replacements lits v
 def mutateList (lits : List String) (keys : List String) : List J → List (String × List J)
   | [] => []
@@ -392,17 +393,17 @@ def keysInPlay (d : Doc) : List String :=
     | .op o => o.sel
     | .frag f => f.sel
     | .imp _ => []
-  (keysGo (2 * all.length + 2000) all []).take 6
+  (keysGo (2 * all.length + 2000) all []).take 3
 
 /-- literals in play: object type names and enum values -/
 def litsInPlay (S : Schema) : List String :=
-  ((S.typeDefs.filter (·.kind == .object)).map (·.name)).take 4
-    ++ ((S.typeDefs.filter (·.kind == .enum)).flatMap fun t => t.values.map (·.name)).take 3
+  ((S.typeDefs.filter (·.kind == .object)).map (·.name)).take 2
+    ++ ((S.typeDefs.filter (·.kind == .enum)).flatMap fun t => t.values.map (·.name)).take 1
 
 /-- the abstract values tested for a definition: the responses themselves and their single-point mutants -/
 def mutants (keys lits : List String) (base : List J) (cap : Nat) : List (String × J) :=
-  let bs := base.take 12
-  let per := max 1 (cap / max 1 bs.length)
+  let bs := base.take 6
+  let per := max 1 (4 * cap / max 1 bs.length)
   (base.map fun v => ("response", v)) ++ bs.flatMap fun v => (mutate lits keys v).take per
 
 end NitroVerif.Exec
